@@ -129,6 +129,34 @@ func (w *World) pkgByPath(path string) *ssa.Package {
 // parseType resolves a (small) type expression in the scope of pkg.
 func (w *World) parseType(s string, pkg *ssa.Package) types.Type {
 	s = strings.TrimSpace(s)
+	if w.cs != nil {
+		if al, ok := w.cs.Types[s]; ok {
+			parts := strings.SplitN(al, "\x00", 2)
+			p := w.pkgByPath(parts[1])
+			if p == nil {
+				p = pkg
+			}
+			tv, err := types.Eval(w.fset, p.Pkg, token.NoPos, parts[0])
+			if err != nil {
+				// retry in the file scopes (imports are file-scoped)
+				packages.Visit(w.pkgs, nil, func(pp *packages.Package) {
+					if pp.Types != p.Pkg || err == nil {
+						return
+					}
+					for _, f := range pp.Syntax {
+						if tv2, err2 := types.Eval(w.fset, p.Pkg, f.Name.End(), parts[0]); err2 == nil {
+							tv, err = tv2, nil
+							return
+						}
+					}
+				})
+			}
+			if err != nil {
+				panic(specError{"type alias " + s + ": " + err.Error()})
+			}
+			return tv.Type
+		}
+	}
 	switch {
 	case strings.HasPrefix(s, "*"):
 		t := w.parseType(s[1:], pkg)
